@@ -41,6 +41,9 @@ type C14 struct {
 	User       string `json:"user"`
 	Password   string `json:"password"`
 	SrvPass    bool   `json:"server_accepts_password"`
+	// Kbd: the server takes the password through keyboard-interactive only, asking this question
+	Kbd     string `json:"kbd_question,omitempty"`
+	KbdEcho bool   `json:"kbd_echo,omitempty"`
 	SrvKey     bool   `json:"server_accepts_key"`
 	WrongPass  bool   `json:"client_has_wrong_password"`
 	Netconf    bool   `json:"netconf"`
@@ -76,6 +79,10 @@ func genC14(seed uint64, run int, tier string) Scenario {
 	sc.User = word(r, lower, 1, 10)
 	sc.Password = genSecret(r, "pw-")
 	sc.SrvPass = r.IntN(5) != 0
+	if kr := kernel.Stream(rs, "kbd"); kr.IntN(4) == 0 {
+		sc.Kbd = pick(kr, "Password: ", "Password:", "Enter your PIN or password: ", sc.User+"'s response: ")
+		sc.KbdEcho = kr.IntN(2) == 0
+	}
 	sc.SrvKey = r.IntN(5) != 0
 	sc.WrongPass = r.IntN(8) == 0
 	sc.Netconf = r.IntN(4) == 0
@@ -218,7 +225,7 @@ func runC14(env *Env, s Scenario) {
 		env.Probe("known-hosts-rewritten-between-connections")
 	}
 	writeKH(sc.KnownHosts)
-	srv := &peer.SSHServer{HostKey: hostKey, Users: map[string]string{}, AuthKeys: map[string]ssh.PublicKey{}, Done: make(chan struct{})}
+	srv := &peer.SSHServer{HostKey: hostKey, Users: map[string]string{}, AuthKeys: map[string]ssh.PublicKey{}, Done: make(chan struct{}), KbdQuestion: sc.Kbd, KbdEcho: sc.KbdEcho}
 	if sc.SrvPass {
 		srv.Users[sc.User] = sc.Password
 	}
@@ -239,7 +246,7 @@ func runC14(env *Env, s Scenario) {
 	// a second connection for the retry after a refused Open (same transport object)
 	client2, server2 := simnet.Pipe(k, simnet.NetPlan{SegMode: "whole"}, simnet.NetPlan{SegMode: "whole"}, false)
 	client2.Addr, server2.Addr = client.Addr, server.Addr
-	srv2 := &peer.SSHServer{HostKey: hostKey, Users: srv.Users, AuthKeys: srv.AuthKeys, Done: make(chan struct{})}
+	srv2 := &peer.SSHServer{HostKey: hostKey, Users: srv.Users, AuthKeys: srv.AuthKeys, Done: make(chan struct{}), KbdQuestion: sc.Kbd, KbdEcho: sc.KbdEcho}
 	srv2.Peer = peer.NewCLI([]*peer.Mode{{Name: "exec", Prompt: "srv#"}}, "exec", 1)
 	simhook.DialFn = func(network, a string) net.Conn {
 		dialed = network + " " + a
